@@ -93,3 +93,174 @@ def target_split_sweeps():
 
 def targets():
     return [target_split_sweeps()]
+
+
+# ------------------------------------------------------------------------------------------------ _extract_data (data flow)
+def target_extract_data():
+    """_extract_data on a table of uninterpreted cells: per row, frequency / real / imaginary (or modulus / phase) are taken from
+    exactly the columns _detect_columns named, text cells go through float(cell.replace(',', '.')), a column marked negative is
+    multiplied by -1 exactly once, rows keep their order, and modulus/phase rows are converted by cmath.rect(|Z|, phase[, in
+    radians if degrees]).  Two rows stand for any number: the loop body keeps no state between rows except the appends."""
+    from pyvc import overload as O
+    from . import dataflow as DF
+    from .dataflow import T, opaque, tv
+    qual = "_extract_data"
+
+    def run(sess: Session):
+        import itertools
+        n_paths = 0
+        for layout, neg_a, neg_b, degrees in itertools.product(("cartesian", "polar"), (False, True), (False, True), (False, True)):
+            if layout == "cartesian" and degrees:
+                continue
+            cols = {"frequency": 2, "real": 0, "imaginary": 3} if layout == "cartesian" else {"frequency": 1, "magnitude": 3, "phase": 0}
+            a, b = ("real", "imaginary") if layout == "cartesian" else ("magnitude", "phase")
+            negative = {"frequency": False, a: neg_a, b: neg_b}
+
+            def once():
+                rows = [[T.var(f"cell[{r}][{c}]") for c in range(4)] for r in range(2)]
+
+                class StrT:
+                    pass
+
+                class FloatT:
+                    pass
+                is_text = {}
+
+                def type_(x):
+                    key = str(tv(x))
+                    if key not in is_text:
+                        is_text[key] = DF.ORACLE.decide("text-cell", f"text({key})")
+                    return StrT if is_text[key] else FloatT
+
+                class DF_:
+                    values = rows
+                rect_calls = []
+
+                def rect(m, p):
+                    rect_calls.append((m, p))
+                    return type("Z", (), {"real": T(DF.fn("rect.real", 2)(tv(m), tv(p))), "imag": T(DF.fn("rect.imag", 2)(tv(m), tv(p)))})()
+
+                class PhaseArr(list):
+                    pass
+
+                def array_(x, dtype=None):
+                    return PhaseArr(x)
+
+                def deg_to_rad(x):
+                    return PhaseArr([T(DF.fn("deg_to_rad", 1)(tv(v))) for v in x])
+                ns = {"type": type_, "str": StrT, "float": opaque("float"), "cmath": type("cm", (), {"rect": staticmethod(rect)}), "array": array_, "Phase": None,
+                      "deg_to_rad": deg_to_rad, "len": len, "zip": zip, "UnsupportedFileFormat": type("UnsupportedFileFormat", (Exception,), {})}
+                O.load(MOD, [qual], ns)
+                out = ns[qual](DF_(), dict(cols), dict(negative), "path", degrees)
+                return rows, out, is_text
+            for log, (rows, out, is_text), facts in DF.explore(once, max_paths=400):
+                n_paths += 1
+                if n_paths > 1 and any(v for _, v in log[:0]):
+                    pass
+                tagbits = "".join("t" if v else "n" for _, v in log)
+                tag = f"[{layout},neg=({neg_a},{neg_b}),degrees={degrees},cells={tagbits}]"
+                fr, re_, im_ = out
+                ok_len = len(fr) == len(re_) == len(im_) == 2
+                sess.check("post", [], z3.BoolVal(ok_len), 0, label=f"one (f, Re, Im) triple per row{tag}")
+                if not ok_len:
+                    continue
+
+                def cell(r, key, neg):
+                    c = rows[r][cols[key]]
+                    v = opaque("float")(c.replace(",", ".")) if is_text.get(str(tv(c))) else c
+                    return v * -1 if neg else v
+                for r in range(2):
+                    DF.eq_check(sess, f"row {r}: frequency from its column{tag}", fr[r], cell(r, "frequency", False))
+                    if layout == "cartesian":
+                        DF.eq_check(sess, f"row {r}: Re from its column, sign applied once{tag}", re_[r], cell(r, "real", neg_a))
+                        DF.eq_check(sess, f"row {r}: Im from its column, sign applied once{tag}", im_[r], cell(r, "imaginary", neg_b))
+                    else:
+                        m, p = cell(r, "magnitude", False), cell(r, "phase", neg_b)
+                        if degrees:
+                            p = T(DF.fn("deg_to_rad", 1)(tv(p)))
+                        DF.eq_check(sess, f"row {r}: Re = rect(|Z|, phase).real of the same row{tag}", re_[r], T(DF.fn("rect.real", 2)(tv(m), tv(p))))
+                        DF.eq_check(sess, f"row {r}: Im = rect(|Z|, phase).imag of the same row{tag}", im_[r], T(DF.fn("rect.imag", 2)(tv(m), tv(p))))
+        sess.check("cover", [], z3.BoolVal(n_paths >= 12 * 8), 0, label=f"paths={n_paths}")
+        sess.assumptions.append("_extract_data: float(), str.replace, cmath.rect, deg_to_rad are opaque pure functions; a 'negative' modulus column is ignored by the code and by this contract")
+    return (f"{MOD}:{qual}", MOD, qual, run)
+
+
+_targets_split_only = targets
+
+
+def targets():      # noqa: F811
+    return _targets_split_only() + [target_extract_data()]
+
+
+# ------------------------------------------------------------------------------------------------ _detect_columns (finite table, exhaustive)
+DOCUMENTED_ALIASES = {
+    "frequency": ["frequency", "freq", "f"],
+    "real": ["z'", "z_re", "zre", "z re", "real", "re"],
+    "imaginary": ['z"', "z''", "z_im", "zim", "z im", "imaginary", "imag", "im"],
+    "magnitude": ["|z|", "z", "magnitude", "modulus", "mag", "mod"],
+    "phase": ["phase", "phz", "phi"],
+}
+
+
+def target_detect_columns():
+    """_detect_columns against the documented header conventions (docstring of dataframe_to_data_sets): for every documented alias
+    of every role, in lower/upper/title case, bare or followed by a unit, with no sign marker, an ASCII hyphen or U+2212, in every
+    column order, the column is assigned to its role at its position and flagged negative exactly when a marker is present.
+    The alias table is finite, so this enumeration is complete for 'header = marker + alias [+ unit]'; headers with other
+    suffixes are decided by the same startswith tests but are not enumerated."""
+    from pyvc import overload as O
+    import itertools
+    qual = "_detect_columns"
+
+    def run(sess: Session):
+        from collections import OrderedDict
+        ns = {"OrderedDict": OrderedDict, "enumerate": enumerate, "len": len}
+        O.load(MOD, [qual], ns)
+        fn = ns[qual]
+        markers = ("", "-", "−")
+        cases = (str.lower, str.upper, str.title)
+        n = 0
+        bad = {}
+        for layout in (("frequency", "real", "imaginary"), ("frequency", "magnitude", "phase")):
+            for aliases in itertools.product(*[DOCUMENTED_ALIASES[r] for r in layout]):
+                for marks in itertools.product(("",), markers, markers):
+                    for case, unit in itertools.product(cases, ("", " (unit)")):
+                        heads = [m + case(a) + unit for m, a in zip(marks, aliases)]
+                        for perm in itertools.permutations(range(3)):
+                            cols = [heads[i] for i in perm]
+                            n += 1
+                            try:
+                                idx, neg = fn(type("DF", (), {"columns": cols})())
+                                ok = all(idx.get(role) == perm.index(k) and bool(neg.get(role)) == (marks[k] != "") for k, role in enumerate(layout)) and set(idx) == set(layout)
+                                why = f"indices={dict(idx)} negative={dict(neg)}"
+                            except Exception as ex:  # noqa
+                                ok, why = False, f"{type(ex).__name__}: {ex}"
+                            if not ok:
+                                key = (layout[1], aliases, marks[1:], unit != "")
+                                bad.setdefault(key, (cols, why))
+        # one obligation per (role pair, alias triple): stable names, the first failing header row is the witness
+        groups = {}
+        for key, w in bad.items():
+            groups.setdefault((key[0], key[1]), w)
+        for layout in (("frequency", "real", "imaginary"), ("frequency", "magnitude", "phase")):
+            for aliases in itertools.product(*[DOCUMENTED_ALIASES[r] for r in layout]):
+                w = groups.get((layout[1], aliases))
+                ob = sess.check("post", [], z3.BoolVal(w is None), 0, label=f"headers {aliases}: role, position and sign marker recognised in every case/marker/unit/order variant")
+                if w is not None:
+                    ob.detail = f"columns={w[0]!r}: {w[1]}"
+                    want_idx = {role: w[0].index(next(c for c in w[0] if c.lstrip("-−").lower().startswith(a))) for role, a in zip(layout, aliases)}
+                    ob.replay = {"repro": "from pyimpspec.data.data_set import _detect_columns\n"
+                                          f"class DF: columns = {w[0]!r}\n"
+                                          "idx, neg = _detect_columns(DF())\nprint(idx, neg)\n"
+                                          f"want = {want_idx!r}\n"
+                                          "assert dict(idx) == want, (dict(idx), want)\n"
+                                          "assert all(bool(neg[k]) == (DF.columns[i][0] in '-\u2212') for k, i in want.items()), dict(neg)\n"}
+        sess.check("cover", [], z3.BoolVal(n >= 50000), 0, label=f"header rows evaluated: {n}")
+    return (f"{MOD}:{qual}", MOD, qual, run)
+
+
+_targets_without_detect = targets
+
+
+def targets():      # noqa: F811
+    return _targets_without_detect() + [target_detect_columns()]
